@@ -1,5 +1,6 @@
 import astload
 import protocol
+import lemma
 from core import Fn, Target
 from cxx2c import unwrap, Unsupported, qual
 
@@ -118,7 +119,7 @@ def build(tier):
         Target('bundle_econverged', [econv, size(), cap()], H, replace=acc), Target('bundle_sconverged', [sconv, size(), cap()], H, replace=acc),
     ] + protocol.targets(['NV_C03']) + [protocol.ellipsoid()]
     return {
-        'targets': targets, 'vcs': [],
+        'targets': targets, 'vcs': [], 'bounded': [lemma.target()],
         'decided': ['bundle_t representation invariant 0 < m_size < capacity() after append / moveto (and from m_size >= 0, as the constructor uses append); every index written into m_bundleE / m_bundleS / m_alphas lies in [0, capacity()); delete_largest reads m_alphas inside [0, size()) and a full bundle loses at least `count` entries'],
         'not_decided': ['the certificate f(x)-f* <= 2 eps sqrt(n)(1+|x-x*|): follows from the cutting-plane model being a lower bound, a convex-analysis argument about values', 'ellipsoid always converges', 'stop-test protocol of csearch/rqb/fpba (T2)'],
         'assumptions': ['cardinality lemma for std::nth_element + nano::remove_if (entries at or after the partition point are >= any element at or before it), stated in specs/C03/bundle.h',
